@@ -17,7 +17,11 @@ pub fn write_file_if_changed<T: AsRef<Path>>(path: T, data: &[u8]) -> Result<boo
         .truncate(true)
         .open(path.as_ref())
         .into_diagnostic()?;
+    #[cfg(veryl_verif)]
+    veryl_path::verif_crash::point("inplace:truncated", path.as_ref());
     file.write_all(data).into_diagnostic()?;
     file.flush().into_diagnostic()?;
+    #[cfg(veryl_verif)]
+    veryl_path::verif_crash::point("inplace:written", path.as_ref());
     Ok(true)
 }
